@@ -174,6 +174,16 @@ def gen(c):
                 add({"op": "ecdh", "d": i2b(da), "peer": b"\x04" + i2b(PB[0]) + i2b(PB[1])}, {"kind": "ecdh", "what": "ecdh:%d:%d" % (i, j), "peerok": True, "qx": list(i2b(PB[0])), "qy": list(i2b(PB[1])), "x2": list(i2b(S[0])), "y2": list(i2b(S[1])), **pt_w(*PB)})
                 PA = mul(da, G)
                 add({"op": "ecdh", "d": i2b(db), "peer": b"\x04" + i2b(PA[0]) + i2b(PA[1])}, {"kind": "ecdh", "what": "ecdh:%d:%d:sym" % (j, i), "peerok": True, "qx": list(i2b(PA[0])), "qy": list(i2b(PA[1])), "x2": list(i2b(S[0])), "y2": list(i2b(S[1])), **pt_w(*PA)})
+    # the peer's share in compressed form (02 / 03 || x): same point, same shared secret -- both parities, and the wrong parity byte gives the other point
+    for i in range(6 if c.quick else 24):
+        da, db = rng.randrange(1, n - 1), rng.randrange(1, n - 1)
+        PB = mul(db, G); S = mul(da, PB)
+        pre = 2 + (PB[1] & 1)
+        add({"op": "ecdh", "d": i2b(da), "peer": bytes([pre]) + i2b(PB[0])}, {"kind": "ecdh", "what": "ecdh:compressed:%d:prefix%02x" % (i, pre), "peerok": True, "qx": list(i2b(PB[0])), "qy": list(i2b(PB[1])), "x2": list(i2b(S[0])), "y2": list(i2b(S[1])), **pt_w(*PB)})
+        PBn = (PB[0], p - PB[1]); Sn = mul(da, PBn)
+        add({"op": "ecdh", "d": i2b(da), "peer": bytes([pre ^ 1]) + i2b(PB[0])}, {"kind": "ecdh", "what": "ecdh:compressed:%d:prefix%02x" % (i, pre ^ 1), "peerok": True, "qx": list(i2b(PBn[0])), "qy": list(i2b(PBn[1])), "x2": list(i2b(Sn[0])), "y2": list(i2b(Sn[1])), **pt_w(*PBn)})
+    xbad = next(x for x in range(2, 200) if lift_x(x, 0) is None)
+    add({"op": "ecdh", "d": i2b(d), "peer": b"\x02" + i2b(xbad)}, {"kind": "ecdh", "what": "ecdh:compressed:x_not_on_curve", "peerok": False, "qx": list(i2b(xbad)), "qy": [0] * 32, "x2": [], "y2": [], **pt_w(xbad, 0)})
     for cname, pt in classes.items():
         if cname in ("other_valid_point", "neg_y"):
             continue
